@@ -26,6 +26,12 @@ MUTANTS = [
     ("C13", R + "_columns/_predicate.py", "            if (operand_as_trivial := operand.as_trivial()) is False:\n                return False\n            elif operand_as_trivial is None:\n                result = None", "            if (operand_as_trivial := operand.as_trivial()) is False:\n                return False", "LogicalAnd.as_trivial ignores unknown operands"),
     ("C13", R + "_columns/_predicate.py", "            if value:\n                return []\n            else:\n                return False", "            if value:\n                return False\n            else:\n                return []", "flatten_logical_and swaps literal cases"),
     ("C13", R + "_columns/_predicate.py", "        elif len(operands) == 1:\n            return operands[0]\n        return LogicalAnd(operands)", "        elif len(operands) == 1:\n            return operands[0]\n        return LogicalOr(operands)", "logical_and builds an OR"),
+    ("C16", R + "_diagnostics.py", "return cls(lhs_result.is_doomed and rhs_result.is_doomed, messages)", "return cls(lhs_result.is_doomed or rhs_result.is_doomed, messages)", "Diagnostics chain arm: or for and"),
+    ("C16", R + "_diagnostics.py", "if not operation.is_empty_invariant and executor is not None and not executor(relation):", "if operation.is_empty_invariant and executor is not None and not executor(relation):", "Diagnostics: is_empty_invariant test inverted"),
+    ("C16", R + "_diagnostics.py", "                        if limit == 0:", "                        if limit is None:", "Diagnostics dooms unlimited slices"),
+    ("C16", R + "_diagnostics.py", "                    if not messages:\n                        messages.append(f\"Relation '{relation!s}' has no rows (static).\")\n", "", "Diagnostics forgets the default message"),
+    ("C16", R + "_operations/_selection.py", "    def is_empty_invariant(self) -> bool:\n        # Docstring inherited.\n        return False", "    def is_empty_invariant(self) -> bool:\n        # Docstring inherited.\n        return True", "Selection claims to be empty-invariant"),
+    ("C16", R + "_diagnostics.py", "                        if lhs_result.is_doomed or rhs_result.is_doomed:\n                            return cls(True, messages)\n", "", "Diagnostics join arm ignores doomed operands (equivalent: the executor branch still decides it) -- must NOT be flagged"),
 ]
 
 
